@@ -3,3 +3,9 @@ import Barril.Model.Basic
 import Barril.Model.Legacy
 import Barril.Model.Conv
 import Barril.Gen.All
+import Barril.Model.Proto
+import Barril.Model.Fail
+import Barril.Proofs.ConvLemmas
+import Barril.Proofs.FailLemmas
+import Barril.Props.C01
+import Barril.Props.C05
